@@ -100,6 +100,11 @@ def rule_helpers(F, R):
     for fn, adv, nm in ((EXPECT, NEXTS, 'expect'), (CHECK, PEEKS, 'check')):
         t = lib.ithir.get(fn)
         ok = False; why = 'not found'
+        if t is None and nm == 'check':
+            import facts as _facts
+            if _facts.baseline_private(fn):
+                # the private look-ahead helper is gone (its callers test tokens.peek() themselves, which the walker reads directly)
+                R.count('A:helpers-gone'); continue
         if t is not None:
             ms = [m for m in walk(t['body']) if m['k'] == 'Match']
             why = 'unexpected shape'
@@ -417,11 +422,47 @@ class Walker:
             raise Undec('match on %s in a parse function' % pp(scr)[:60], e['loc'])
         return out
 
+    def lookahead_token(self, closure, st):
+        """the constant token T of a closure `|t| **t == T` (either operand order); None if the closure is something else"""
+        ct = self.lib.ithir.get(canon(closure['def']))
+        if ct is None or len(ct['params']) != 2: return None
+        pv = ct['params'][1]['pat']
+        while pv['k'] in ('Deref', 'DerefPattern'): pv = pv['sub']
+        if pv['k'] != 'Binding': return None
+        b = ct['body']
+        while b['k'] in ('Use', 'NeverToAny', 'Borrow', 'Deref') or (b['k'] == 'Block' and not b['stmts'] and b['expr'] is not None):
+            b = b.get('source') or b.get('arg') or b.get('expr')
+        if b['k'] == 'Call' and callee_name(b) and (callee_name(b).endswith('PartialEq>::eq') or (b.get('callee', {}).get('def') or '').endswith('PartialEq::eq')): l, r = b['args']
+        elif b['k'] == 'Binary' and b['op'] == 'Eq': l, r = b['lhs'], b['rhs']
+        else: return None
+        def is_param(x):
+            while x['k'] in ('Use', 'Borrow', 'Deref', 'NeverToAny'): x = x.get('source') or x.get('arg')
+            return x['k'] in ('VarRef', 'UpvarRef') and x['var'] == pv['var']
+        other = r if is_param(l) else l if is_param(r) else None
+        if other is None: return None
+        vals = self.run(other, st)
+        if len(vals) == 1 and vals[0][1] == 'val' and vals[0][2][0] == 'token': return vals[0][2][1]
+        return None
+
     def r_Call(self, e, st):
         cn = callee_name(e) or ''
         loc = e['loc']
         if cn in NEXTS or cn in PEEKS:
             return [(st, 'val', ('next',) if cn in NEXTS else ('peek',))]
+        if cn in ('std::option::Option::map_or', 'std::option::Option::is_some_and') and e['args']:
+            # look-ahead written out: tokens.peek().map_or(false, |t| **t == TOKEN) / tokens.peek().is_some_and(|t| **t == TOKEN)
+            probe = self.run(e['args'][0], st)
+            if len(probe) == 1 and probe[0][1] == 'val' and probe[0][2] == ('peek',):
+                dflt = None
+                if cn.endswith('map_or'):
+                    dv = self.run(e['args'][1], st)
+                    dflt = dv[0][2] if len(dv) == 1 and dv[0][1] == 'val' else None
+                cl = e['args'][-1]
+                while cl['k'] in ('Use', 'Borrow', 'Deref', 'NeverToAny'): cl = cl.get('source') or cl.get('arg')
+                tok = self.lookahead_token(cl, st) if cl['k'] == 'Closure' else None
+                if tok is not None and (dflt is None or dflt == ('lit', False)):
+                    return [(st.with_ev(('la', frozenset([tok]))), 'val', ('lit', True)), (st.with_ev(('nla', frozenset([tok]))), 'val', ('lit', False))]
+                raise Undec('look-ahead test on peek() that is not `next token == constant token`', loc)
         outs, ab = self.run_seq(e['args'], st)
         res = list(ab)
         for (s, vs) in outs:
